@@ -62,11 +62,13 @@ func sfMaterialise(t *testing.T, base string, lay sfLayout, id int) string {
 	}
 	must(os.MkdirAll(filepath.Join(top, "root", "d"), 0o755))
 	must(os.MkdirAll(filepath.Join(top, "rootx"), 0o755))
+	must(os.MkdirAll(filepath.Join(top, "ROOT"), 0o755))
 	must(os.MkdirAll(filepath.Join(top, "out"), 0o755))
 	w := func(p, c string) { must(os.WriteFile(filepath.Join(top, p), []byte(c), 0o644)) }
 	w("root/f.txt", "F")
 	w("root/d/g.txt", "G")
 	w("rootx/s.txt", "EVIL")
+	w("ROOT/c.txt", "CASE")
 	w("out/secret.txt", "SECRET")
 	w("out/index.html", "OUTIDX")
 	if _, kind := sfTarget(lay.Ti); kind == "file" {
